@@ -191,17 +191,9 @@ func c08Chunks(tier string) []SeqChunk {
 					for refill := int64(0); refill <= hi; refill++ {
 						prev := -1
 						for cur := int64(-1); cur <= hi; cur++ {
+							// refill beyond current is reachable (SetCurrent(90); SetRefill(90); SetCurrent(10)): the refill
+							// segment must then be clamped to the filled segment
 							r := refill
-							if r > cur {
-								if cur < 0 {
-									r = 0
-								} else {
-									r = cur
-								}
-							}
-							if r != refill && refill != 0 && cur >= 0 && refill > cur {
-								// refill above current is outside the domain (SetRefill caps it); keep the chain with the capped value
-							}
 							c08Case(env, st, filler, w, total, cur, r, &prev)
 						}
 					}
